@@ -148,6 +148,12 @@ def run(ctx):
     reuse_cases = [{"id": rids[(k + m) % len(rids)], "mode": mode, "n": nconn}
                    for m, mode in enumerate(reuse_modes) for k in range(per_mode)]
     cases += reuse_cases
+    # Config.Rand variants: io.Reader allows short reads; the GREASE seed must be complete (fresh) with any of them
+    rand_variants = ["full", "onebyte", "chunks"]
+    rand_ids = [gids[(ctx.seed + 3 * k) % len(gids)] for k in range(2 if ctx.quick else 8)]
+    rand_cases = [{"id": i, "mode": mode, "n": nconn, "rand": rv} for rv in rand_variants for i in rand_ids for mode in ("parrot",)]
+    rand_cases += [{"id": rids[0], "mode": "reuse-id", "n": nconn, "rand": rv} for rv in rand_variants]
+    cases += rand_cases
     gh = ctx.drv("ghellos", {"cases": cases}, prog="gen", timeout=1500)
     panics = [e for e in gh if e["ev"] == "Hello" and e["panic"]]
     for e in panics:
@@ -182,6 +188,9 @@ def run(ctx):
         ok = [g for g in groups if g[0]["mode"] == mode and sum(1 for e in g[1:-1] if e["sent"]) == nconn]
         if not ok:
             raise vlib.Machinery("C04 vacuity: no complete group of %d hellos for spec-reuse mode %s" % (nconn, mode))
+    for rv in rand_variants:
+        if not [g for g in groups if g[0].get("rand") == rv and sum(1 for e in g[1:-1] if e["sent"]) == nconn]:
+            raise vlib.Machinery("C04 vacuity: no complete group of hellos with Config.Rand variant %s" % rv)
     ngroups_with_ext2 = sum(1 for g in groups if sum(1 for e in g[0]["spec"]["exts"] if e["kind"] == "UtlsGREASEExtension") >= 2)
     if ngroups_with_ext2 < 3:
         raise vlib.Machinery("C04 vacuity: fewer than 3 groups with two GREASE extensions")
@@ -228,7 +237,7 @@ def run(ctx):
     cov = {"evaluations": evals, "distinct_nontrivial": len(boring) * 65536 + len(groups),
            "rule": "evaluations = 65536 seed values x %d indices of GetBoringGREASEValue (exhaustive) + %d draws each of GetGREASEID, GREASETransportParameter.ID, GetGREASEVersion + marshaled transport-parameter lists + wire hellos; distinct = (seed value, index) pairs + connection groups (spec x mode) whose freshness was judged" % (nidx, ndraw),
            "samples": samples, "grease_parrots": len(gids), "connection_groups": len(groups), "connections_per_group": nconn,
-           "fingerprinted_groups": len(fp_ids), "spec_reuse_groups": {m: sum(1 for c in reuse_cases if c["mode"] == m) for m in reuse_modes}, "forced_collision_connections": 256 * len(cr_ids), "collision_branch_seen": collided,
+           "config_rand_groups": {rv: sum(1 for c in rand_cases if c["rand"] == rv) for rv in rand_variants}, "fingerprinted_groups": len(fp_ids), "spec_reuse_groups": {m: sum(1 for c in reuse_cases if c["mode"] == m) for m in reuse_modes}, "forced_collision_connections": 256 * len(cr_ids), "collision_branch_seen": collided,
            "canary_events_rejected": ncan, "exhaustive": False,
            "exhaustive_part": "GetBoringGREASEValue over all 65536 seed values for each index"}
     return "model_checking", cov, [
